@@ -13,11 +13,11 @@ func SigmaFull() []Step {
 		Multi("a", "b"), Multi("b", "a"), Multi("a", "a"), Multi("a", "*"), Multi("*", "*"),
 		// recursive descent followed by each form
 		Rec(a), Rec(Wild()), Rec(Multi("a", "b")), Rec(Union(Idx(0))), Rec(Union(Idx(0), Idx(1))),
-		Rec(BWild()), Rec(Union(Slice2(N(0), N(2)))), Rec(Filter(Exists(at(a)))),
+		Rec(BWild()), Rec(Union(Slice2(N(0), N(2)))), Rec(Filter(Exists(at(a)))), Rec(Multi("*", "*")), Rec(Multi("a", "*")),
 		// subscripts
 		Union(Idx(0)), Union(Idx(1)), Union(Idx(-1)), Union(Slice2(N(0), N(2))), Union(Slice2(N(1), Om())),
 		Union(Slice(Om(), Om(), N(-1))), Union(Slice(Om(), Om(), N(2))), Union(Idx(0), Idx(1)), Union(Idx(1), Idx(0)),
-		Union(Idx(0), Idx(0)), Union(Idx(0), Slice2(N(1), N(2)), Star()), BWild(),
+		Union(Idx(0), Idx(0)), Union(Idx(0), Slice2(N(1), N(2)), Star()), Union(Star(), Idx(0)), BWild(),
 		// filters: existence
 		Filter(Exists(at(a))), Filter(NotExists(at(a))), Filter(Exists(at(Wild()))), Filter(Exists(at(Rec(a)))),
 		Filter(Exists(at(Union(Idx(0))))), Filter(Exists(rt(a))),
